@@ -235,6 +235,18 @@ func postDirect(seed uint64, tier string, args []string, w *bufio.Writer) {
 	} else {
 		total += n
 	}
+	// ... and while it closes connections that have a read and a write waiting in the poller (both interests dropped at once)
+	if ok, why, n := postWhileClosingBoth(8, ad); !ok {
+		fails++
+		fmt.Fprintf(w, "DIRECT-FAIL key=post.%s mode=post-while-closing-connections posts=%d\n", why, n)
+	} else {
+		total += n
+	}
+	// Pending() and Posted() next to an armed timer, before, inside and after the dispatch of posted handlers
+	if ok, why := postCounters(); !ok {
+		fails++
+		fmt.Fprintf(w, "DIRECT-FAIL key=post.%s mode=counters\n", why)
+	}
 	// the library's own cross-goroutine hand-off: AsyncHandshake dials on another goroutine and must deliver the
 	// completion (state change included) through Post, on the loop goroutine
 	ho := 6
@@ -668,6 +680,160 @@ func postWhileArming(posters int, d time.Duration) (bool, string, int) {
 			result <- "handlers-lost"
 		case ioc.Pending() != 0 || ioc.Posted() != 0:
 			result <- fmt.Sprintf("pending-or-posted-not-zero-at-quiescence")
+		default:
+			result <- ""
+		}
+	}()
+	select {
+	case why := <-result:
+		return why == "", why, int(atomic.LoadInt64(&posted))
+	case <-time.After(d + 60*time.Second):
+		return false, "loop-deadlocked", int(atomic.LoadInt64(&posted))
+	}
+}
+
+// postCounters: with a timer armed for an hour, three handlers posted from another goroutine and not yet dispatched:
+// Posted() = 3 and Pending() = 4; inside the first handler the batch has left the queue (Posted() = 0) while all three still
+// count as pending; afterwards Posted() = 0 and Pending() = 1 (the timer), and 0 once the timer is closed.
+func postCounters() (bool, string) {
+	result := make(chan string, 1)
+	go func() {
+		runtime.LockOSThread()
+		defer runtime.UnlockOSThread()
+		ioc, err := sonic.NewIO()
+		if err != nil {
+			result <- "newio"
+			return
+		}
+		defer ioc.Close()
+		t, err := sonic.NewTimer(ioc)
+		if err != nil {
+			result <- "newtimer"
+			return
+		}
+		defer t.Close()
+		_ = t.ScheduleOnce(time.Hour, func() {})
+		inside := [][2]int64{}
+		done := make(chan struct{})
+		go func() {
+			for i := 0; i < 3; i++ {
+				_ = ioc.Post(func() { inside = append(inside, [2]int64{int64(ioc.Posted()), ioc.Pending()}) })
+			}
+			close(done)
+		}()
+		<-done
+		if ioc.Posted() != 3 || ioc.Pending() != 4 {
+			result <- fmt.Sprintf("counters-before-dispatch posted=%d pending=%d (want 3 and 4)", ioc.Posted(), ioc.Pending())
+			return
+		}
+		for i := 0; i < 10 && len(inside) < 3; i++ {
+			_, _ = ioc.PollOne()
+		}
+		if len(inside) != 3 {
+			result <- "handlers-lost"
+			return
+		}
+		for i, v := range inside {
+			if v[0] != 0 || v[1] != int64(4-i) {
+				result <- fmt.Sprintf("counters-inside-handler-%d posted=%d pending=%d (want 0 and %d)", i, v[0], v[1], 4-i)
+				return
+			}
+		}
+		if ioc.Posted() != 0 || ioc.Pending() != 1 {
+			result <- fmt.Sprintf("counters-after-dispatch posted=%d pending=%d (want 0 and 1)", ioc.Posted(), ioc.Pending())
+			return
+		}
+		_ = t.Close()
+		if ioc.Pending() != 0 {
+			result <- "pending-or-posted-not-zero-at-quiescence"
+			return
+		}
+		result <- ""
+	}()
+	select {
+	case why := <-result:
+		return why == "", strings.Fields(why + " x")[0]
+	case <-time.After(30 * time.Second):
+		return false, "loop-deadlocked"
+	}
+}
+
+// postWhileClosingBoth: goroutines post continuously while the loop goroutine dials connections, leaves a read and a
+// write-all waiting in the poller on each (the peer neither writes nor reads) and closes them.
+func postWhileClosingBoth(posters int, d time.Duration) (bool, string, int) {
+	result := make(chan string, 1)
+	var posted int64
+	go func() {
+		runtime.LockOSThread()
+		defer runtime.UnlockOSThread()
+		ioc, err := sonic.NewIO()
+		if err != nil {
+			result <- "newio"
+			return
+		}
+		defer ioc.Close()
+		ln, err := net.Listen("tcp", "127.0.0.1:0")
+		if err != nil {
+			result <- "listen"
+			return
+		}
+		defer ln.Close()
+		var ran int64 // loop goroutine only
+		var stop int32
+		var wg sync.WaitGroup
+		for g := 0; g < posters; g++ {
+			wg.Add(1)
+			go func() {
+				defer wg.Done()
+				for atomic.LoadInt32(&stop) == 0 {
+					if err := ioc.Post(func() { ran++ }); err == nil {
+						atomic.AddInt64(&posted, 1)
+					}
+					if atomic.LoadInt64(&posted)%64 == 0 {
+						runtime.Gosched()
+					}
+				}
+			}()
+		}
+		big := make([]byte, 1<<20)
+		end := time.Now().Add(d)
+		both := 0
+		for time.Now().Before(end) {
+			c, err := sonic.Dial(ioc, "tcp", ln.Addr().String())
+			if err != nil {
+				break
+			}
+			p, err := ln.Accept()
+			if err != nil {
+				c.Close()
+				break
+			}
+			_ = syscall.SetsockoptInt(c.RawFd(), syscall.SOL_SOCKET, syscall.SO_SNDBUF, 4096)
+			before := ioc.Pending()
+			c.AsyncReadAll(make([]byte, 8), func(error, int) {})
+			c.AsyncWriteAll(big, func(error, int) {})
+			_ = before
+			both++
+			_ = c.Close()
+			_ = p.Close()
+			_, _ = ioc.PollOne()
+		}
+		atomic.StoreInt32(&stop, 1)
+		wg.Wait()
+		deadline := time.Now().Add(5 * time.Second)
+		for ran < atomic.LoadInt64(&posted) && time.Now().Before(deadline) {
+			_ = ioc.RunOneFor(5 * time.Millisecond)
+		}
+		for i := 0; i < 3; i++ {
+			_, _ = ioc.PollOne()
+		}
+		switch {
+		case both == 0:
+			result <- ""
+		case ran != atomic.LoadInt64(&posted):
+			result <- "handlers-lost"
+		case ioc.Pending() != 0 || ioc.Posted() != 0:
+			result <- "pending-or-posted-not-zero-at-quiescence"
 		default:
 			result <- ""
 		}
